@@ -16,7 +16,7 @@ extern "C" int LLVMFuzzerTestOneInput(const uint8_t* data, size_t size)
 		int const bad = fdp.ConsumeIntegralInRange<int>(0, 7) == 7 ? fdp.ConsumeIntegralInRange<int>(0, 1) : -1;
 		int const nreq = fdp.ConsumeIntegralInRange<int>(bad >= 0 ? 0 : 1, 4);
 		for (int k = 0; k < nreq; ++k)
-			c.recs.push_back(mk("req", {i, fdp.ConsumeIntegralInRange<int>(0, 2), fdp.ConsumeIntegralInRange<int>(0, 3), fdp.ConsumeBool(), fdp.ConsumeIntegralInRange<int>(0, 2), fdp.ConsumeIntegralInRange<int>(0, 2)}));
+			c.recs.push_back(mk("req", {i, fdp.ConsumeIntegralInRange<int>(0, 2), fdp.ConsumeIntegralInRange<int>(0, 5), fdp.ConsumeBool(), fdp.ConsumeIntegralInRange<int>(0, 2), fdp.ConsumeIntegralInRange<int>(0, 2)}));
 		if (bad >= 0) c.recs.push_back(mk("bad", {i, bad}));
 		int const ncut = fdp.ConsumeIntegralInRange<int>(0, 6);
 		static long long const gaps[] = {0, 0, 200, 30000, 400000};
